@@ -487,4 +487,114 @@ theorem sampleFactored_in_range (rows : List (List Rat)) (us : List Rat)
 example : (sampleFactored [[1/2, 1/2], [1/4, 1/4, 1/2]] [3/4, 1/3]).length = 2 :=
   (sampleFactored_in_range [[1/2, 1/2], [1/4, 1/4, 1/2]] [3/4, 1/3] rfl (by simp)).1
 
+/-! ## slack from a sum that differs slightly from one: length of the preimage inside `[0,1)` -/
+
+theorem cum_le_succ (l : List Rat) (k : Nat) (hnn : ∀ x ∈ l, 0 ≤ x) : cum l k ≤ cum l (k + 1) := by
+  by_cases hk : k < l.length
+  · rw [cum_succ_eq l k hk]
+    have : 0 ≤ l.getD k 0 := by
+      rw [List.getD_eq_getElem l 0 hk]; exact hnn _ (List.getElem_mem hk)
+    linarith
+  · rw [cum_of_length_le l k (by omega), cum_of_length_le l (k + 1) (by omega)]
+
+theorem absQ_le_iff (q t : Rat) : absQ q ≤ t ↔ -t ≤ q ∧ q ≤ t := by
+  unfold absQ
+  split
+  · constructor
+    · intro h; constructor <;> linarith
+    · rintro ⟨h1, h2⟩; linarith
+  · constructor
+    · intro h; constructor <;> linarith
+    · rintro ⟨h1, h2⟩; linarith
+
+/-- what `isProbability` accepts -/
+theorem isProb_iff (l : List Rat) : isProb l = true ↔
+    (∀ x ∈ l, 0 ≤ x) ∧ absQ (l.sum - 1) ≤ Gen.equalToleranceSmall := by
+  simp [isProb, eqSmall, List.all_eq_true]
+
+/-- length of the set of draws in `[0,1)` mapped to index `k` (see `dense_preimage_unit`) -/
+def preimageLen (l : List Rat) (k : Nat) : Rat :=
+  if k + 1 < l.length then min (cum l (k + 1)) 1 - min (cum l k) 1 else 1 - min (cum l k) 1
+
+/-! ### D1. inside `[0,1)` the preimage of `k` is `[min c_k 1, min c_{k+1} 1)`, resp. `[min c_{d-1} 1, 1)` -/
+
+theorem dense_preimage_unit (l : List Rat) (u : Rat) (k : Nat) (hnn : ∀ x ∈ l, 0 ≤ x)
+    (hne : l ≠ []) (hu : 0 ≤ u) (hu1 : u < 1) :
+    (sampleDense l u = k ↔
+      k < l.length ∧ min (cum l k) 1 ≤ u ∧ (k + 1 < l.length → u < min (cum l (k + 1)) 1)) := by
+  rw [dense_preimage l u k hnn hu hne]
+  have e1 : min (cum l k) 1 ≤ u ↔ cum l k ≤ u := by
+    rw [min_le_iff]
+    constructor
+    · rintro (h | h)
+      · exact h
+      · linarith
+    · intro h; exact Or.inl h
+  have e2 : u < min (cum l (k + 1)) 1 ↔ u < cum l (k + 1) := by
+    rw [lt_min_iff]
+    exact ⟨fun h => h.1, fun h => ⟨h, hu1⟩⟩
+  rw [e1, e2]
+
+-- test: sum 5/4 > 1, the last index is never drawn from [0,1): its preimage [min(1,..),1) is empty
+example : ¬ sampleDense [1/2, 1/2, 1/4] (99/100) = 2 := by
+  rw [dense_preimage_unit _ _ _ (by norm_num) (by simp) (by norm_num) (by norm_num)]
+  norm_num [cum]
+
+/-! ### D2. for a vector accepted by `isProbability` that length is within the tolerance of `p_k` -/
+
+theorem dense_preimage_length_valid (l : List Rat) (k : Nat) (hp : isProb l = true) (_hne : l ≠ [])
+    (hk : k < l.length) :
+    absQ (preimageLen l k - l.getD k 0) ≤ Gen.equalToleranceSmall := by
+  obtain ⟨hnn, hs⟩ := (isProb_iff l).mp hp
+  obtain ⟨hs1, hs2⟩ := (absQ_le_iff _ _).mp hs
+  have h0 : 0 ≤ cum l k := cum_nonneg l k hnn
+  have h01 : cum l k ≤ cum l (k + 1) := cum_le_succ l k hnn
+  have h1S : cum l (k + 1) ≤ l.sum := cum_le_sum l (k + 1) hnn
+  have hpk : l.getD k 0 = cum l (k + 1) - cum l k := (dense_interval_length l k hk).symm
+  rw [absQ_le_iff, hpk]
+  unfold preimageLen
+  by_cases hlt : k + 1 < l.length
+  · rw [if_pos hlt]
+    rcases le_total (cum l (k + 1)) 1 with a1 | a1
+    · have a0 : cum l k ≤ 1 := le_trans h01 a1
+      rw [min_eq_left a1, min_eq_left a0]
+      constructor <;> linarith
+    · rcases le_total (cum l k) 1 with a0 | a0
+      · rw [min_eq_right a1, min_eq_left a0]
+        constructor <;> linarith
+      · rw [min_eq_right a1, min_eq_right a0]
+        constructor <;> linarith
+  · rw [if_neg hlt]
+    have hS : cum l (k + 1) = l.sum := cum_of_length_le l (k + 1) (by omega)
+    rcases le_total (cum l k) 1 with a0 | a0
+    · rw [min_eq_left a0]
+      constructor <;> linarith
+    · rw [min_eq_right a0]
+      constructor <;> linarith
+
+-- test: the row of `sparse_total_counterexample` (sum 1 - 2^-21, accepted), last index has p = 0
+-- but is drawn on a set of length 2^-21 ≤ 1e-6
+example : absQ (preimageLen [1/2, 1/2 - 1/2^21, 0] 2 - ([1/2, 1/2 - 1/2^21, 0] : List Rat).getD 2 0)
+    ≤ Gen.equalToleranceSmall :=
+  dense_preimage_length_valid _ 2
+    (by norm_num [isProb, eqSmall, absQ, Gen.equalToleranceSmall]) (by simp) (by simp)
+example : preimageLen [1/2, 1/2 - 1/2^21, 0] 2 = 1/2^21 := by
+  norm_num [preimageLen, cum]
+
+/-! ### D3. … and exactly `p_k` when the entries sum to exactly one -/
+
+theorem dense_preimage_length_exact (l : List Rat) (k : Nat) (hnn : ∀ x ∈ l, 0 ≤ x)
+    (hsum : l.sum = 1) (hk : k < l.length) : preimageLen l k = l.getD k 0 := by
+  have a0 : cum l k ≤ 1 := hsum ▸ cum_le_sum l k hnn
+  have a1 : cum l (k + 1) ≤ 1 := hsum ▸ cum_le_sum l (k + 1) hnn
+  have hpk := dense_interval_length l k hk
+  unfold preimageLen
+  by_cases hlt : k + 1 < l.length
+  · rw [if_pos hlt, min_eq_left a1, min_eq_left a0]; exact hpk
+  · rw [if_neg hlt, min_eq_left a0, ← hpk, cum_of_length_le l (k + 1) (by omega), hsum]
+
+-- test
+example : preimageLen [1/4, 1/2, 1/4] 1 = ([1/4, 1/2, 1/4] : List Rat).getD 1 0 :=
+  dense_preimage_length_exact _ 1 (by norm_num) (by norm_num) (by simp)
+
 end AITB.Sampling
